@@ -4,6 +4,7 @@ import (
 	"bytes"
 	"encoding/json"
 	"fmt"
+	"math"
 	"reflect"
 	"sort"
 
@@ -78,8 +79,10 @@ func (in *mvtIntern) id(v interface{}) [2]int {
 	case uint64:
 		return [2]int{1, in.bits.id(float64(t))}
 	case float64:
-		return [2]int{1, in.bits.id(float64(int64(t)))}
-	case int8, int16, int32, uint, uint8, uint16:
+		return [2]int{1, in.bits.id(math.Trunc(t))} // (also beyond the int64 range: 2^63 .. 2^64)
+	case uint:
+		return [2]int{1, in.bits.id(float64(t))}
+	case int8, int16, int32, uint8, uint16:
 		return [2]int{1, in.bits.id(float64(reflect.ValueOf(v).Convert(reflect.TypeOf(int64(0))).Int()))}
 	case float32:
 		return [2]int{1, in.bits.id(float64(int64(t)))}
@@ -319,7 +322,9 @@ func init() {
 			n := c.rng.Intn(4) // equal numbers of different Go types collide on purpose
 			switch c.rng.Intn(23) {
 			case 0:
-				return []string{"x", "null", "1", "true"}[c.rng.Intn(4)]
+				// (strings are byte strings: text that is not valid UTF-8 - a latin-1 byte, a cut multi-byte rune, an overlong
+				// form, an encoded surrogate - comes back byte for byte, and the replacement character is a character)
+				return []string{"x", "null", "1", "true", "caf\xe9", "a\xc3", "\xc0\xaf", "\xed\xa0\x80", "\uFFFD", "\xff\xfe"}[c.rng.Intn(10)]
 			case 1:
 				return c.rng.Intn(2) == 0
 			case 2:
@@ -415,6 +420,9 @@ func init() {
 						f.ID = uint64(idv)
 						if bigID != 0 {
 							f.ID = uint64(bigID)
+							if c.rng.Intn(2) == 0 { // the upper half of the unsigned range: ids are unsigned 64-bit numbers
+								f.ID = []uint64{1 << 63, 1<<63 + 4096, math.MaxUint64, math.MaxUint64 - 2047, 1<<63 - 1024}[c.rng.Intn(5)]
+							}
 						}
 					case 5:
 						f.ID = int8(idv % 128)
@@ -424,6 +432,9 @@ func init() {
 						f.ID = int32(idv)
 					case 8:
 						f.ID = uint(idv)
+						if bigID != 0 && c.rng.Intn(2) == 0 {
+							f.ID = uint(1<<63 + 4096)
+						}
 					case 9:
 						f.ID = uint8(idv % 256)
 					case 10:
